@@ -601,9 +601,86 @@ def identity_rule_body(c):
     return ok(nontrivial=True, key=json.dumps([n, ks, japi, vapi, how]), labels=["identity_rule", "how=" + how, "japi=" + japi], sample=sample)
 
 
+def identity_view_body(c):
+    """As identity_rule, but one argument enters reversed - lin(a, b, c) = k0 a + k1 b[::-1] + k2 c - so that its rule hands back a VIEW of the incoming
+    (co)tangent where k1 = 1 while another argument's rule hands back the (co)tangent itself; the three arguments are a drawn arrangement of 2x, sin x,
+    x^2 (all traced at one level, each also consumed by a term written BEFORE the call), the result is consumed three times, the terms of the loss summed in a drawn order.
+    Oracle: the same function in plain NumPy, differentiated by central differences (first order, 1e-6) and by second differences (u.H.v, 1e-5)."""
+    import autograd
+    import autograd.numpy as anp
+    from autograd.extend import defjvp, defjvp_argnum, defvjp, defvjp_argnum, primitive
+
+    vseed = c.seed()
+    n = c.int(2, 4)
+    ks = [[1.0, 1.0, -2.0][i] for i in c.perm(3)]
+    slots = c.perm(3)
+    order = c.perm(3)
+    japi = c.choice(["defjvp_argnum", "defjvp"])
+    vapi = c.choice(["defvjp_argnum", "defvjp"])
+    how = c.choice(["grad", "grad", "hvp_rr", "hvp_fr", "jvp"])
+    (x0, W, V, U, u, v), _ = values.generic(vseed, [(n,)] * 6, 0.3, 1.4)
+    sample = {"n": n, "ks": ks, "slots": slots, "order": order, "japi": japi, "vapi": vapi, "how": how, "vseed": vseed}
+    c.features.update(japi=japi, vapi=vapi, how=how, view_identity=ks[1] == 1.0, other_identity=ks[0] == 1.0 or ks[2] == 1.0)
+    bucket = lambda k: f"C17|identity_view|{k}"
+    raw = lambda a, b, cc: ks[0] * a + ks[1] * b[::-1] + ks[2] * cc
+    lin = primitive(raw)
+    sc = lambda i, g: g if ks[i] == 1.0 else ks[i] * g
+    rule = lambda i, g: sc(i, g)[::-1] if i == 1 else sc(i, g)
+    if japi == "defjvp_argnum":
+        defjvp_argnum(lin, lambda argnum, g, ans, args, kwargs: rule(argnum, g))
+    else:
+        defjvp(lin, *[(lambda g, ans, a, b, cc, i=i: rule(i, g)) for i in range(3)])
+    if vapi == "defvjp_argnum":
+        defvjp_argnum(lin, lambda argnum, ans, args, kwargs: lambda g: rule(argnum, g))
+    else:
+        defvjp(lin, *[(lambda ans, a, b, cc, i=i: lambda g: rule(i, g)) for i in range(3)])
+
+    def f(x, ns=anp, L=lin):
+        ops = [x * 2.0, ns.sin(x), x * x]
+        # every operand is ALSO consumed by a term written before the call (so it receives that contribution later in the backward pass)
+        early = ns.sum(ns.cos(ops[0]) * U) + ns.sum(ns.exp(ops[1]) * W) + ns.sum(ops[2] * V)
+        out = L(*[ops[j] for j in slots])
+        terms = [ns.sum(out * x * W), ns.sum(ns.cos(out) * V), early + ns.sum(out)]
+        tot = terms[order[0]]
+        for j in order[1:]:
+            tot = tot + terms[j]
+        return tot
+
+    fn = lambda x: float(f(x, onp, raw))
+    h1, h2 = 1e-6, 5e-3
+    x_before, u_before, v_before = x0.copy(), u.copy(), v.copy()
+    try:
+        if how in ("grad", "jvp"):
+            num = onp.array([(fn(x0 + h1 * e) - fn(x0 - h1 * e)) / (2 * h1) for e in onp.eye(n)])
+            if how == "grad":
+                got, want, tol = onp.asarray(autograd.grad(f)(x0)), num, 1e-6
+            else:
+                got, want, tol = onp.asarray(autograd.make_jvp(f)(x0)(v)[1]), onp.sum(num * v_before), 1e-6
+        else:
+            d2 = lambda hh: (fn(x0 + hh * (u + v)) - fn(x0 + hh * (u - v)) - fn(x0 - hh * (u - v)) + fn(x0 - hh * (u + v))) / (4 * hh * hh)
+            want = (4 * d2(h2 / 2) - d2(h2)) / 3  # Richardson: O(h^4) truncation, ~1e-10 rounding
+            tol = 2e-5
+            if how == "hvp_rr":
+                got = onp.sum(onp.asarray(autograd.grad(lambda x: anp.sum(autograd.grad(f)(x) * u))(x0)) * v_before)
+            else:
+                got = onp.sum(onp.asarray(autograd.make_jvp(autograd.grad(f))(x0)(v)[1]) * u_before)
+    except Exception as e:
+        if not from_autograd(e):
+            raise
+        return fail("unexpected_exception", describe_exc(e), bucket("exception"), sample=sample)
+    if not (onp.array_equal(x0, x_before) and onp.array_equal(u, u_before) and onp.array_equal(v, v_before)):
+        return fail("caller_array_changed", f"{how}: an array the caller passed in was modified", bucket("caller_array"), sample=sample)
+    scale = max(1.0, float(onp.max(onp.abs(want))))
+    if onp.shape(got) != onp.shape(want) or not onp.all(onp.abs(onp.asarray(got) - want) <= tol * scale):
+        return fail("wrong_value", f"{how} (ks={ks}, arguments {slots}, term order {order}, {japi}/{vapi}): {onp.asarray(got).tolist()} but differences of the plain function give {onp.asarray(want).tolist()}",
+                    bucket(how), sample=sample)
+    return ok(nontrivial=True, key=json.dumps([n, ks, slots, order, japi, vapi, how]), labels=["identity_view", "how=" + how], sample=sample)
+
+
 PROP = Prop("C17", [
     Test("primitives", prim_body, quick=8000, thorough=30000, shard_size=300),
     Test("none_space", none_space_body, quick=1500, thorough=5000, shard_size=100),
     Test("checkpoint", checkpoint_body, quick=800, thorough=3000, shard_size=50),
     Test("identity_rule", identity_rule_body, quick=800, thorough=5000, shard_size=200),
+    Test("identity_view", identity_view_body, quick=1500, thorough=8000, shard_size=250),
 ], RULE, assumptions=["closed-form partials of the polynomial family; registration through the public autograd.extend API only"])
